@@ -161,13 +161,13 @@ def _call_sites(ix, cls, mname):
 
 
 def whole_mapping_uses(fn):
-    """`<scope>.directives` (not self) passed on as a whole (argument of a call) -> [(text, line, Call, position or keyword)]"""
+    """`<scope>.directives` (not self) passed on as a whole (argument of a call) -> [(text, line, Call, position or keyword, scope expression)]"""
     out = []
     for n in walk_no_nested(fn):
         if isinstance(n, ast.Call):
             for where, a in list(enumerate(n.args)) + [(k.arg, k.value) for k in n.keywords]:
                 if isinstance(a, ast.Attribute) and a.attr == 'directives' and not (isinstance(a.value, ast.Name) and a.value.id == 'self'):
-                    out.append((_u(a), n.lineno, n, where))
+                    out.append((_u(a), n.lineno, n, where, a.value))
     return out
 
 
@@ -226,8 +226,8 @@ def envread_findings(ix, classes, scopes):
                     elif 'with statement' in legal:
                         problem = 'may be set by a with statement (Options.directive_scopes: %s)' % ', '.join(legal)
                 rows.append(('%s.%s:%s' % (c.name, mname, key), c, mname, key, kind, text, line, problem))
-            for text, line, call, where in whole_mapping_uses(fn):
-                kind, res = classify_scope(ix, c, fn, ast.parse(text, mode='eval').body.value)
+            for text, line, call, where, recv in whole_mapping_uses(fn):
+                kind, res = classify_scope(ix, c, fn, recv)
                 if kind != 'env' or not ('env' in res or 'scope' in res):
                     continue
                 reads = passed_mapping_reads(ix, c, call, where) if hasattr(ix, 'resolve_name') else None
